@@ -475,6 +475,15 @@ func c09History(r *verifkit.R, phase string, ci int, rng *verifkit.Rand) {
 		snaps[kind] = rig.tabs[kind].Snap()
 		r.Add("mutations", 1)
 		r.Add("op_"+op.Op, 1)
+		if op.Op == "disconnect" {
+			for i := range snaps[kind] {
+				if e := &snaps[kind][i]; e.NextHop == op.Peer {
+					r.Violation(kind+":route-via-disconnected-peer-still-stored", phase, ci,
+						fmt.Sprintf("after disconnect of %s the %s table still stores %s, which lookups can return", w.name(op.Peer), kind, e.show(w)), wit())
+				}
+			}
+			r.Add("disconnects_checked_for_leftovers", 1)
+		}
 		if op.Op == "cleanup" && c8PartialCleanup(w, before, snaps[kind]) {
 			r.Add("partial_stale_cleanups", 1)
 			r.Add("partial_stale_cleanups_"+kind, 1)
@@ -511,6 +520,9 @@ func TestVerif_C09_Conc(t *testing.T) {
 		"non-trivial = round with >=1 stable and >=1 churn answer")
 	rounds := r.N(20, 300)
 	r.Cases("conc", rounds, func(ci int, rng *verifkit.Rand) { c09ConcRound(r, "conc", ci, rng) })
+	c8LostUpdatePhase(r, "lostupd", []string{c8Domain, c8Forward, c8Agent}, r.N(300, 3000))
+	r.Require("lostupd_stale_routes_removed", int64(r.N(1000, 10000)))
+	r.Require("lostupd_final_submissions_checked", int64(r.N(1000, 10000)))
 	r.Require("conc_lookups", 10000)
 	r.Require("conc_stable_answers", 1000)
 	r.Require("conc_churn_answers", 100)
